@@ -14,7 +14,7 @@ CONSTANTS MaxDocs, MaxFields
 VARIABLES corpus, flt
 vars == <<corpus, flt>>
 
-Names == {"a", "b", "c"}
+Names == {"a", "A", "b"}           \* JSON keys are case sensitive: "a" and "A" are different fields
 Asked == Names \cup {"z"}                    \* "z" is never present
 NoF == [fields |-> <<>>, allow |-> TRUE]
 
